@@ -997,7 +997,13 @@ func (fx *Fx) specCall(env *SpecEnv, e *SCall) Val {
 			return Val{T: fmt.Sprintf("(select %s %s)", st.heap("CLB", "(Array Int Int)"), arg(0).T), S: "Int", GT: intT}
 		case "ctxdone":
 			c.declareFun("ctx_done", []string{"Iface"}, "Int")
-			return Val{T: "(ctx_done " + arg(0).T + ")", S: "Int", GT: intT}
+			t := "(ctx_done " + arg(0).T + ")"
+			// the same fact the code-level ctx.Done() gets: the channel of a context the activation was given existed
+			// before anything the activation allocates
+			if fx.entry != nil {
+				c.axiom(fmt.Sprintf("(and (>= %s 0) (<= %s %s))", t, t, fx.entryAlloc()))
+			}
+			return Val{T: t, S: "Int", GT: intT}
 		case "fncode":
 			c.declareFun("fn_code", []string{"Int"}, "Int")
 			return Val{T: "(fn_code " + arg(0).T + ")", S: "Int", GT: intT}
